@@ -80,10 +80,19 @@ def reset_state():
     """Return the process-global caches to their import-time state."""
     import tally.expr_parser as ep
     import tally.merchant_utils as mu
-    for nm in ("_expression_cache", "_regex_cache"):
-        c = getattr(ep, nm, None)
-        if hasattr(c, "clear"):
-            c.clear()
+    import tally.merchant_engine as me
+    for mod in (ep, mu, me):
+        for nm, c in list(vars(mod).items()):
+            if "cache" not in nm.lower():
+                continue
+            # module-level caches whatever they are called: dict-like ones are emptied, lru_cache-like ones cleared
+            if isinstance(c, (dict, set, list)):
+                c.clear()
+            elif hasattr(c, "cache_clear"):
+                try:
+                    c.cache_clear()
+                except Exception:
+                    pass
     try:
         mu.clear_engine_cache()
     except Exception:
